@@ -550,6 +550,52 @@ Definition perm_of (mode : option N) : N :=
    error type disagrees with the model (the harness observes the class). *)
 Inductive gres : Type := GOk (mode : option N) (content : list N) | GErr | GPanic.
 Inductive bres : Type := BOk (content : list N) | BErr | BPanic.
+(* ------------------------------------------------------------------ the writer's configuration
+   put_object reads its zstd level on every call:
+     std::env::var("SCCACHE_CACHE_ZSTD_LEVEL").ok().and_then(|v| v.parse::<i32>().ok()).unwrap_or(3)
+   A level is (negative?, magnitude).  <i32 as FromStr>: an optional single '+' or '-', then at least one ASCII
+   digit and nothing else (no blanks), value within i32; anything else — unset, not unicode, empty, a lone sign,
+   overflow — falls back to 3.  (zstd itself clamps a level outside its own range; that is inside `compress`.) *)
+Definition level : Type := (bool * N)%type.
+Definition DEFAULT_LEVEL : level := (false, 3).
+
+Fixpoint digits (l : list N) (acc : N) : option N :=
+  match l with
+  | [] => Some acc
+  | b :: r => if N.leb 48 b && N.leb b 57 then digits r (acc * 10 + (b - 48)) else None
+  end.
+
+Definition parse_i32 (s : list N) : option level :=
+  match s with
+  | [] => None
+  | 45 :: r =>
+    match r with
+    | [] => None
+    | _ => match digits r 0 with
+           | Some n => if N.leb n 2147483648 then Some (negb (N.eqb n 0), n) else None
+           | None => None
+           end
+    end
+  | 43 :: r =>
+    match r with
+    | [] => None
+    | _ => match digits r 0 with
+           | Some n => if N.leb n 2147483647 then Some (false, n) else None
+           | None => None
+           end
+    end
+  | _ => match digits s 0 with
+         | Some n => if N.leb n 2147483647 then Some (false, n) else None
+         | None => None
+         end
+  end.
+
+Definition zstd_level (env : option (list N)) : level :=
+  match env with
+  | Some v => match parse_i32 v with Some l => l | None => DEFAULT_LEVEL end
+  | None => DEFAULT_LEVEL
+  end.
+
 Inductive xres : Type := XOk (files : list (option (option N * list N))) | XErr | XPanic.
 Inductive ures : Type :=
 | UHit (stdout stderr : list N) (files : list (option (option N * list N)))
@@ -664,3 +710,17 @@ Section Glue.
       end
     end.
 End Glue.
+
+(* the writer under a configuration: zstd at the level the environment selects.  The reader has no configuration:
+   it must unpack what ANY level wrote. *)
+Section GlueCfg.
+  Variable compress_at : level -> list N -> list N.
+
+  Definition cache_members_cfg (env : option (list N)) (objs : list (list N * option N * list N))
+             (stdout stderr : list N) : list member :=
+    cache_members (compress_at (zstd_level env)) objs stdout stderr.
+
+  Definition cache_write_cfg (env : option (list N)) (objs : list (list N * option N * list N))
+             (stdout stderr : list N) : list N :=
+    cache_write (compress_at (zstd_level env)) objs stdout stderr.
+End GlueCfg.
